@@ -217,6 +217,9 @@ def sany(module_path):
 # ------------------------------------------------------------------------------------------------
 # trace validation
 # ------------------------------------------------------------------------------------------------
+SKIPPED_TRACES = []      # trace validations that ran into their time limit (inconclusive; reported in the evidence)
+
+
 def run_trace_spec(module, trace_path, timeout=600, cfg=None, heap="4g"):
     """TLC over spec/trace/<module>.tla with TRACE=<trace_path>; acceptance is decided by the
     spec's POSTCONDITION (TLC exit status 0).  Lines PrintT(<<"TRACE", json>>) come back as cases."""
@@ -326,28 +329,37 @@ def run_bwexec(cases, nproc=None, trace_dir=None, timeout_per_shard=600, env=Non
 
 
 def _classify_cli(rc, stdout, stderr, want_list):
+    """outcome: ok (report / listing produced) | error (exit 1 with a message) | reject (exit 2, command line) |
+    panic | garbled | other.  A run is a report iff what it printed on stderr parses as the JSON report (or it printed
+    nothing); an exit status 1 with any other text is an error -- whatever the wording or prefix of the message."""
     out = {"exit": rc, "list": None, "report": None, "error": None, "stdout": stdout, "stderr": stderr}
-    if rc in (0, 1) and not stderr.lstrip().startswith("Error:") and "panicked at" not in stderr:
-        out["outcome"] = "ok"
-        if want_list:
+    if "panicked at" in stderr or rc in (101, 134) or rc < 0:
+        out["outcome"] = "panic"
+        out["error"] = stderr[-2000:]
+    elif rc in (0, 1):
+        st = stderr.strip()
+        parsed = None
+        if st:
+            try:
+                parsed = json.loads(st)
+                if not isinstance(parsed, dict):
+                    parsed = None
+            except Exception:
+                parsed = None
+        if want_list and rc == 0:
+            out["outcome"] = "ok"
             try:
                 out["list"] = json.loads(stdout) if stdout.strip() else {}
             except Exception:
                 out["outcome"] = "garbled"
+        elif not want_list and (parsed is not None or not st) and not (rc == 1 and not st):
+            out["outcome"] = "ok"
+            out["report"] = parsed if parsed is not None else {}
+        elif rc == 1:
+            out["outcome"] = "error"
+            out["error"] = stderr
         else:
-            if stderr.strip():
-                try:
-                    out["report"] = json.loads(stderr)
-                except Exception:
-                    out["outcome"] = "garbled"
-            else:
-                out["report"] = {}
-    elif "panicked at" in stderr or rc in (101, 134) or rc < 0:
-        out["outcome"] = "panic"
-        out["error"] = stderr[-2000:]
-    elif rc == 1:
-        out["outcome"] = "error"
-        out["error"] = stderr
+            out["outcome"] = "garbled"
     elif rc == 2:
         out["outcome"] = "reject"
         out["error"] = stderr
@@ -532,6 +544,8 @@ class Check:
             "known_finding_hits": self.known_hits,
         }
         cov.update(self.notes)
+        if SKIPPED_TRACES:
+            cov["trace_validations_timed_out_inconclusive"] = SKIPPED_TRACES[:20]
         ev = {
             "property_id": self.pid,
             "tier": self.tier,
